@@ -340,6 +340,7 @@ def gen_order_cases(rng, tier):
                 calls += [("PFIN",)] * (2 if twice else 1)
                 calls += [("PSET", field, rng.choice(good_lims))] + [("PT", pt()) for _ in range(na)] + [("PFIN",), ("PDROP",)] + F
                 cases.append(("order:rejected-finalize-then-points", calls))
+    cases += [("order:" + l.split(":", 1)[1], c) for l, c in wapi.rejected_limits_cases(rng)]
     # the same for the image writer: finalize without a representation is rejected, then one is added
     for kinds in ("v", "p", "s", "c", "vp"):
         body = img_calls(rng, kinds, fin=False, drop=False)
